@@ -4,8 +4,10 @@ findings, evidence file, replay files, exit codes (0 ok / 1 violation /
 import json, os, re, sys, time
 
 VERIF = os.path.dirname(os.path.dirname(os.path.abspath(__file__)))
-EVID = os.path.join(VERIF, "evidence")
-REPLAY = os.path.join(VERIF, "replay")
+# VERIF_OUT redirects evidence and replay files (used by tools/seedsweep.sh so that experiments on scratch copies of the
+# repository never touch the committed evidence)
+EVID = os.path.join(os.environ.get("VERIF_OUT", VERIF), "evidence")
+REPLAY = os.path.join(os.environ.get("VERIF_OUT", VERIF), "replay")
 KNOWN = os.path.join(VERIF, "known_findings.txt")
 
 
